@@ -723,12 +723,33 @@ func diffCase(id int, seed int64, out *json.Encoder, big bool) {
 				ev.LRes = "inexact"
 			}
 		}
-		// ---- again, after diffs stopped by their callbacks at the first report
-		sameNames := func(a, b []string) bool {
-			x, y := append([]string{}, a...), append([]string{}, b...)
-			sort.Strings(x)
-			sort.Strings(y)
-			return fmt.Sprint(x) == fmt.Sprint(y)
+		// ---- again, after diffs stopped by their callbacks at the first report; and with one Load failing once. These
+		// runs are judged on names by C07's own clauses (complete, within its version, nothing twice), not by comparison with the first run
+		judge := func(added, removed []string) bool {
+			as, rs := map[string]bool{}, map[string]bool{}
+			for _, a := range added {
+				if as[a] || !rn[a] {
+					return false
+				}
+				as[a] = true
+			}
+			for _, a := range removed {
+				if rs[a] || !ro[a] {
+					return false
+				}
+				rs[a] = true
+			}
+			for n := range rn {
+				if !ro[n] && !as[n] {
+					return false
+				}
+			}
+			for n := range ro {
+				if !rn[n] && !rs[n] {
+					return false
+				}
+			}
+			return true
 		}
 		if lres == "ok" && ev.CbRes == "ok" {
 			nm, o2 = reopenBoth()
@@ -754,11 +775,11 @@ func diffCase(id int, seed int64, out *json.Encoder, big bool) {
 			if res2 != "ok" || fmt.Sprint(cb2) != fmt.Sprint(ev.Cb) {
 				ev.AgainCb = "bad"
 			}
-			if lres2 != "ok" || !sameNames(a2, added) || !sameNames(r2, removed) {
+			if lres2 != "ok" || !judge(a2, r2) {
 				ev.AgainLinks = "bad"
 			}
 		}
-		// ---- the node diff with one Load failing once (an error is fine; a success must be the same result)
+		// ---- the node diff with one Load failing once (an error is fine; a success must still be a correct node diff)
 		if lres == "ok" && ev.Stores == "one" && !writerCache && ltotal > 0 {
 			for j := 0; j < 4; j++ {
 				nm, o2 = reopenBoth()
@@ -770,7 +791,7 @@ func diffCase(id int, seed int64, out *json.Encoder, big bool) {
 				switch {
 				case lres3 == "err":
 					ev.FaultErrs++
-				case lres3 != "ok" || !sameNames(a3, added) || !sameNames(r3, removed):
+				case lres3 != "ok" || !judge(a3, r3):
 					ev.FaultBad++
 				}
 			}
